@@ -43,6 +43,19 @@ func ZZC10Guess() {
 	} else {
 		v.Assert(t == SchemaTypeFloat, "C10/schema-type-float-classification")
 	}
+	// the guesser tries its predicates in map order: whatever the order, the answer is the same
+	// (natively the call is repeated under Go's randomised order)
+	if v.IsSymbolic() {
+		v.MapOrder(1+v.Choose(0, 1), 0)
+		t2, err2 := GuessSchemaType(a)
+		v.MapOrder(0, 0)
+		v.Assert(err2 == nil && t2 == t, "C11/schema-type-depends-on-map-order")
+	} else {
+		for i := 0; i < 200; i++ {
+			t2, err2 := GuessSchemaType(a)
+			v.Assert(err2 == nil && t2 == t, "C11/schema-type-depends-on-map-order")
+		}
+	}
 }
 
 func init() { ZZHarnesses["ZZC10Guess"] = ZZC10Guess }
